@@ -13,7 +13,8 @@
 From Coq Require Import List Arith.
 From GB Require Import Base.Field Base.FNum Base.Tables Model.Shell Model.MomentInt Model.Overlap Model.DiffOp
   Model.OneBody Proofs.CoreSumP Proofs.CoreBlockP Proofs.CoreDiffP Proofs.CoreExamplesP
-  Proofs.BlockMatP Proofs.AssembledP Proofs.AssembledOverlapP Proofs.AssembledHermP Proofs.AssembledExamplesP.
+  Proofs.BlockMatP Proofs.AssembledP Proofs.AssembledOverlapP Proofs.AssembledHermP
+  Proofs.AssembledSphP Proofs.AssembledSphOverlapP Proofs.AssembledSphHermP Proofs.AssembledExamplesP.
 Import ListNotations.
 
 (* herm_assembly, any block function (elements = lists over F, conj = negation) *)
@@ -132,3 +133,88 @@ Example C08_momentum_herm_Qc :
   = vneg K (nth 10 (nth 14 (momentum_integral_re K ex_basis None) []) []).
 Proof. exact momentum_herm_ex. Qed.
 Print Assumptions C08_momentum_herm_Qc.
+
+(* ================= spherical / mixed bases (any assignment of coordinate types) =================
+   oidx / osize / ototal / tco / dsum / to_cart as in Props/C01_assembled.v (C01_mixed_unfold). *)
+
+(* herm_assembly, any block function whose entries are vectors of a common length d and whose DIAGONAL blocks
+   are antisymmetric: R[J][I] = -R[I][J] at every position, any order and any types of the shells *)
+Theorem C08_herm_assembly_mixed :
+  forall (F : Type) (K : Fops F), is_field K ->
+  forall (blockf : shell F -> shell F -> list (list (list (list (list F))))) (bs : list (shell F)) (d : nat),
+  (forall s, In s bs -> 0 < nseg s) ->
+  (forall sa sb, In sa bs -> In sb bs -> shape4 (nseg sa) (ncomp sa) (nseg sb) (ncomp sb) (blockf sa sb)) ->
+  (forall sa sb, In sa bs -> In sb bs -> forall ma ia mb ib,
+     ma < nseg sa -> ia < ncomp sa -> mb < nseg sb -> ib < ncomp sb ->
+     length (get4 [] ma ia mb ib (blockf sa sb)) = d) ->
+  (forall s, In s bs -> forall m c m' c', m < nseg s -> c < ncomp s -> m' < nseg s -> c' < ncomp s ->
+     get4 [] m' c' m c (blockf s s) = vneg K (get4 [] m c m' c' (blockf s s))) ->
+  forall I J, I < ototal K bs -> J < ototal K bs ->
+  let R := two_symm_integral_h K vzero (vadd K) (vscale K) (vneg K) blockf bs None in
+  nth I (nth J R []) [] = vneg K (nth J (nth I R []) []).
+Proof. exact (fun F K Kf blockf bs d => herm_assembly_mixed K Kf blockf bs d). Qed.
+Print Assumptions C08_herm_assembly_mixed.
+
+Theorem C08_momentum_integral_herm_mixed :
+  forall (F : Type) (K : Fops F), is_field K ->
+  (forall x : F, fapx K x = x) -> fadd K (f1 K) (f1 K) <> f0 K ->
+  forall bs : list (shell F), (forall s, In s bs -> 0 < nseg s) -> basis_wf bs -> basis_exps K bs bs ->
+  forall I J, I < ototal K bs -> J < ototal K bs ->
+  nth I (nth J (momentum_integral_re K bs None) []) []
+  = map (fopp K) (nth J (nth I (momentum_integral_re K bs None) []) []).
+Proof. exact (fun F K Kf Hapx H2 => momentum_integral_herm_mixed K Kf Hapx H2). Qed.
+Print Assumptions C08_momentum_integral_herm_mixed.
+
+Theorem C08_angmom_integral_herm_mixed :
+  forall (F : Type) (K : Fops F), is_field K ->
+  (forall x : F, fapx K x = x) -> fadd K (f1 K) (f1 K) <> f0 K ->
+  forall bs : list (shell F), (forall s, In s bs -> 0 < nseg s) -> basis_wf bs -> basis_exps K bs bs ->
+  forall I J, I < ototal K bs -> J < ototal K bs ->
+  nth I (nth J (angmom_integral_re K bs None) []) []
+  = map (fopp K) (nth J (nth I (angmom_integral_re K bs None) []) []).
+Proof. exact (fun F K Kf Hapx H2 => angmom_integral_herm_mixed K Kf Hapx H2). Qed.
+Print Assumptions C08_angmom_integral_herm_mixed.
+
+(* exactness for spherical / mixed bases: every component k of every entry is (+)T on both indices of the
+   all-Cartesian matrix (whose entries are C08_momentum_integral_entry) *)
+Theorem C08_momentum_mixed_is_cart_transformed :
+  forall (F : Type) (K : Fops F), is_field K ->
+  (forall x : F, fapx K x = x) -> fadd K (f1 K) (f1 K) <> f0 K ->
+  forall bs : list (shell F), (forall s, In s bs -> 0 < nseg s) -> basis_wf bs -> basis_exps K bs bs ->
+  forall i j m q m' q', i < length bs -> j < length bs ->
+  m < nseg (sh_at K bs i) -> q < osize (sh_at K bs i) -> m' < nseg (sh_at K bs j) -> q' < osize (sh_at K bs j) ->
+  let e := nth (oidx K bs j m' q') (nth (oidx K bs i m q) (momentum_integral_re K bs None) []) [] in
+  length e = 3 /\
+  forall k, k < 3 ->
+    nth k e (f0 K) = dsum K (sh_at K bs i) (sh_at K bs j) q q' (fun c c' =>
+      nth k (nth (gidx K (map to_cart bs) j m' c') (nth (gidx K (map to_cart bs) i m c)
+              (momentum_integral_re K (map to_cart bs) None) []) []) (f0 K)).
+Proof. exact (fun F K Kf Hapx H2 => momentum_mixed_is_cart_transformed K Kf Hapx H2). Qed.
+Print Assumptions C08_momentum_mixed_is_cart_transformed.
+
+Theorem C08_angmom_mixed_is_cart_transformed :
+  forall (F : Type) (K : Fops F), is_field K ->
+  (forall x : F, fapx K x = x) -> fadd K (f1 K) (f1 K) <> f0 K ->
+  forall bs : list (shell F), (forall s, In s bs -> 0 < nseg s) -> basis_wf bs -> basis_exps K bs bs ->
+  forall i j m q m' q', i < length bs -> j < length bs ->
+  m < nseg (sh_at K bs i) -> q < osize (sh_at K bs i) -> m' < nseg (sh_at K bs j) -> q' < osize (sh_at K bs j) ->
+  let e := nth (oidx K bs j m' q') (nth (oidx K bs i m q) (angmom_integral_re K bs None) []) [] in
+  length e = 3 /\
+  forall k, k < 3 ->
+    nth k e (f0 K) = dsum K (sh_at K bs i) (sh_at K bs j) q q' (fun c c' =>
+      nth k (nth (gidx K (map to_cart bs) j m' c') (nth (gidx K (map to_cart bs) i m c)
+              (angmom_integral_re K (map to_cart bs) None) []) []) (f0 K)).
+Proof. exact (fun F K Kf Hapx H2 => angmom_mixed_is_cart_transformed K Kf Hapx H2). Qed.
+Print Assumptions C08_angmom_mixed_is_cart_transformed.
+
+(* the mixed Qc basis of Props/C01_assembled.v (spherical d, Cartesian p, spherical s): Hermiticity inside the
+   diagonal block of the spherical d shell and across a spherical / Cartesian pair *)
+Example C08_momentum_herm_mixed_Qc :
+  forall opi osqrt oexp oln oboys,
+  let K := KQ opi osqrt oexp oln oboys in
+  nth 2 (nth 8 (momentum_integral_re K ex_mixed None) []) []
+  = vneg K (nth 8 (nth 2 (momentum_integral_re K ex_mixed None) []) [])
+  /\ nth 12 (nth 8 (angmom_integral_re K ex_mixed None) []) []
+  = vneg K (nth 8 (nth 12 (angmom_integral_re K ex_mixed None) []) []).
+Proof. exact momentum_herm_mixed_ex. Qed.
+Print Assumptions C08_momentum_herm_mixed_Qc.
